@@ -4,6 +4,7 @@ import (
 	"bytes"
 	"encoding/binary"
 	"fmt"
+	"github.com/mimiro-io/datahub/internal/verifrt/model"
 
 	"github.com/dgraph-io/badger/v4"
 )
@@ -105,5 +106,82 @@ func (h *VHist) VInjectDuplicate(absDS, absID string) error {
 		return err
 	}
 	h.M.ForceDup(absDS, absID)
+	return nil
+}
+
+// VInjectDuplicateInBatch leaves a legacy duplicate of the latest version that shares its batch (its transaction time)
+// with a further, different version of the same entity: one batch [toggled, current, next] is stored and the toggled
+// version is removed raw. Only for contents without references (reference keys carry the time but not the position in
+// the batch, so the toggled version's keys could not be told apart).
+func (h *VHist) VInjectDuplicateInBatch(absDS, absID string, next model.Content) error {
+	ds := h.W.Dsm.GetDataset(h.DsName(absDS))
+	if ds == nil {
+		return fmt.Errorf("no dataset %s", absDS)
+	}
+	md := h.M.Datasets[absDS]
+	if md == nil || md.Latest(absID) == nil {
+		return fmt.Errorf("nothing to duplicate")
+	}
+	cur := md.Latest(absID).C
+	if len(cur.Refs) > 0 || len(next.Refs) > 0 || next.Equal(cur) {
+		return fmt.Errorf("harness: contents with references or equal contents cannot be used here")
+	}
+	toggled := cur.Clone()
+	toggled.Deleted = !toggled.Deleted
+	orig := h.Entity(absID, cur)
+	if err := ds.StoreEntities([]*Entity{h.Entity(absID, toggled), orig, h.Entity(absID, next)}); err != nil {
+		return err
+	}
+	rid := orig.InternalID
+	var versionKeys [][]byte
+	err := h.W.Store.database.View(func(txn *badger.Txn) error {
+		p := make([]byte, 14)
+		binary.BigEndian.PutUint16(p, EntityIDToJSONIndexID)
+		binary.BigEndian.PutUint64(p[2:], rid)
+		binary.BigEndian.PutUint32(p[10:], ds.InternalID)
+		opts := badger.DefaultIteratorOptions
+		opts.PrefetchValues = false
+		opts.Prefix = p
+		it := txn.NewIterator(opts)
+		defer it.Close()
+		for it.Seek(p); it.ValidForPrefix(p); it.Next() {
+			versionKeys = append(versionKeys, it.Item().KeyCopy(nil))
+		}
+		return nil
+	})
+	if err != nil || len(versionKeys) < 3 {
+		return fmt.Errorf("harness: cannot find the toggled version (%v, %d versions)", err, len(versionKeys))
+	}
+	tKey := versionKeys[len(versionKeys)-3]
+	del := [][]byte{tKey}
+	_ = h.W.Store.database.View(func(txn *badger.Txn) error {
+		p := make([]byte, 6)
+		binary.BigEndian.PutUint16(p, DatasetEntityChangeLog)
+		binary.BigEndian.PutUint32(p[2:], ds.InternalID)
+		it := txn.NewIterator(badger.IteratorOptions{Prefix: p, PrefetchValues: true, PrefetchSize: 10})
+		defer it.Close()
+		for it.Seek(p); it.ValidForPrefix(p); it.Next() {
+			v, _ := it.Item().ValueCopy(nil)
+			if bytes.Equal(v, tKey) {
+				del = append(del, it.Item().KeyCopy(nil))
+			}
+		}
+		return nil
+	})
+	if len(del) != 2 {
+		return fmt.Errorf("harness: change entry of the toggled version not found")
+	}
+	if err := h.W.Store.database.Update(func(txn *badger.Txn) error {
+		for _, k := range del {
+			if err := txn.Delete(k); err != nil {
+				return err
+			}
+		}
+		return nil
+	}); err != nil {
+		return err
+	}
+	h.M.ForceDup(absDS, absID)
+	_, _ = h.M.Batch(absDS, []model.Ent{{ID: absID, C: next}})
 	return nil
 }
